@@ -338,7 +338,7 @@ theorem viaEpsilon_ok {p : Pat} {seen : List Event} {key : String} {r : Run} {e 
     AdvOk p (seen ++ [e]) key (viaEpsilon p r e) := by
   unfold viaEpsilon
   by_cases hl : p.isLast r.pos = true
-  · rw [if_pos hl]; exact ⟨r, h, hninv, hl, rfl⟩
+  · rw [if_pos hl]; trivial
   · rw [if_neg hl]
     cases hnxt : p.steps[r.pos + 1]? with
     | none => trivial
@@ -2110,7 +2110,8 @@ theorem transLoop_next (p : Pat) (cfg : Cfg) (r : Run) (e : Event) (nxt : Step) 
 /-- the epsilon arm of a Kleene state: [self, continue] -/
 theorem epsLoop_kleene (p : Pat) (r : Run) (e : Event) (cur : Step) (h : r.pos < p.steps.length)
     (hcur : p.steps[r.pos]? = some cur) (hk : cur.kleene = true) :
-    epsLoop (compile p) (toN p r) e [sid p.steps r.pos, sid p.steps r.pos + 1] = (viaEpsilon p r e).mapRun (toN p) := by
+    epsLoop (compile p) (toN p r) e (p.isLast r.pos) [sid p.steps r.pos, sid p.steps r.pos + 1] =
+      (viaEpsilon p r e).mapRun (toN p) := by
   have hget := compile_get p r.pos cur hcur
   have hcont := hget.2 hk
   unfold epsLoop
@@ -2123,7 +2124,7 @@ theorem epsLoop_kleene (p : Pat) (r : Run) (e : Event) (cur : Step) (h : r.pos <
   simp only [hcont]
   unfold viaEpsilon
   by_cases hl : p.isLast r.pos = true
-  · simp [hl, contS, cState, Adv.mapRun, toN, Run.result]
+  · simp [hl, contS, cState, Adv.mapRun, epsLoop]
   · have hl' : p.isLast r.pos = false := by simpa using hl
     obtain ⟨nxt, hn⟩ := not_last_next h hl'
     have hsid : sid p.steps r.pos + 2 = sid p.steps (r.pos + 1) := by
@@ -2165,7 +2166,7 @@ theorem advanceN_compile (p : Pat) (cfg : Cfg) (r : Run) (e : Event) (h : r.pos 
         have htr : (evS cur (sid p.steps r.pos) (p.isLast r.pos)).trans = [] := by simp [evS, hk, kState]
         have hep : (evS cur (sid p.steps r.pos) (p.isLast r.pos)).eps = [sid p.steps r.pos, sid p.steps r.pos + 1] := by
           simp [evS, hk, kState]
-        simp only [htr, hep, transLoop, hk, Bool.not_true, Bool.false_eq_true, if_false]
+        simp only [htr, hep, transLoop, hk, Bool.not_true, Bool.false_eq_true, if_false, evS_epsAccept, Bool.true_and]
         exact epsLoop_kleene p r e cur h hcur hk
       · -- Normal state: one transition, no epsilons
         have hl : p.isLast r.pos = false := by
